@@ -51,7 +51,7 @@ theorem history_ideal_mixture (w₀ : World) (hwf : WF w₀) (hgood : Amt.Good w
   obtain ⟨⟨st, hrun, hM, hA⟩, _⟩ := C01.replay_composition w₀ hwf hgood h0 ops hops hok
   exact ⟨st, hrun, fun l L hL i hi => C01.amount_well hM hA l L hL i hi⟩
 
-/-- The same two statements for histories that also contain `distribute` calls (positive volume, static side
+/-- The same two statements for histories that also contain `distribute` calls (static side
     conditions `C01D.DistOKI`; on an EVO: `C01D.traceableEvo`, nothing assumed about the destination wells). -/
 theorem history_normalised_dist (w₀ : World) (hwf : WF w₀) (hgood : Amt.Good w₀) (h0 : w₀.recs = [])
     (ops : List Op) (hops : ∀ op ∈ ops, C01D.traceableI (info w₀) w₀.cfg.dev op)
